@@ -25,6 +25,9 @@
 //          its leader is a zombie (never seen stopped, cannot be attached)
 //   -V MS  one more thread that is, almost all the time, the parent of a vfork child living MS milliseconds: it cannot
 //          act on a stop request until the child is gone (slow to stop); listed as a thread with spin=2
+//   -G     one more thread (reported spin=2: its registers are not described) that waits on its pipe; each byte written
+//          to the pipe makes it map a page (rw, filled with 0x77) right behind pattern region 0 (which has to be of
+//          kind u) and wait again: the target changes its address space between two requests
 //   -L     place the shared page (register tables, counters) at the fixed low address 0x200000, below the executable
 //   -g     install a counting handler for SIGRTMIN+1 (per-thread counters in the shared page)
 //
@@ -135,6 +138,9 @@ static int forced[MAXT];
 static uint64_t forced_sp[MAXT];
 static int forced_rel[MAXT];
 static int vfork_ms = 0, leader_exits = 0;
+static int want_mapper = 0;
+static int is_mapper[MAXT];
+static uint64_t mapper_at = 0;
 static int is_slow[MAXT];
 static char dname[64][64];
 static int dname_len[64];
@@ -195,6 +201,18 @@ static void *thread_main(void *arg) {
       sh->regs[idx].counter++;
     }
   }
+  if (is_mapper[idx]) {
+    __atomic_store_n(&sh->regs[idx].ready, 1, __ATOMIC_SEQ_CST);
+    for (;;) {
+      char b;
+      if (read(sh->pipes[idx][0], &b, 1) != 1) continue;
+      if (mapper_at) {
+        uint8_t *m = mmap((void *)(uintptr_t)mapper_at, 4096, PROT_READ | PROT_WRITE, MAP_PRIVATE | MAP_ANONYMOUS | MAP_FIXED, -1, 0);
+        if (m != MAP_FAILED) memset(m, 0x77, 4096);
+      }
+      sh->regs[idx].counter++;
+    }
+  }
   if (is_spin[idx])
     vt_spin(&sh->regs[idx]);
   else
@@ -223,7 +241,7 @@ int main(int argc, char **argv) {
   memset(sh, 0, sizeof *sh);
 
   int c;
-  while ((c = getopt(argc, argv, "t:s:n:o:S:r:m:M:F:d:gw:D:ZV:L")) != -1) {
+  while ((c = getopt(argc, argv, "t:s:n:o:S:r:m:M:F:d:gw:D:ZV:LG")) != -1) {
     switch (c) {
       case 't': nblock = atoi(optarg); break;
       case 's': nspin = atoi(optarg); break;
@@ -347,11 +365,12 @@ int main(int argc, char **argv) {
       case 'g': want_sig = 1; break;
       case 'Z': leader_exits = 1; break;
       case 'L': break;
+      case 'G': want_mapper = 1; break;
       case 'V': vfork_ms = atoi(optarg); break;
       default: return 2;
     }
   }
-  nthreads_total = 1 + nblock + nspin + (vfork_ms > 0 ? 1 : 0);
+  nthreads_total = 1 + nblock + nspin + (vfork_ms > 0 ? 1 : 0) + (want_mapper ? 1 : 0);
   if (nthreads_total > MAXT) return 2;
 
   if (want_sig) {
@@ -422,8 +441,10 @@ int main(int argc, char **argv) {
     sh->regs[i].below_ptr = nregions > 0 ? regions[0].addr + 8 : 0;
     sh->regs[i].above_ptr = (nregions > 0 && (i % 2) == 1) ? regions[0].addr + 24 : 0;
     is_spin[i] = i > nblock;
-    is_slow[i] = vfork_ms > 0 && i == nthreads_total - 1;
+    is_mapper[i] = want_mapper && i == nthreads_total - 1;
+    is_slow[i] = vfork_ms > 0 && i == nthreads_total - 1 - (want_mapper ? 1 : 0);
   }
+  if (want_mapper && nregions > 0) mapper_at = (regions[0].addr + regions[0].len + page - 1) & ~(uint64_t)(page - 1);
   for (int i = 1; i < nthreads_total; i++) {
     pthread_attr_t at;
     pthread_attr_init(&at);
@@ -454,7 +475,7 @@ int main(int argc, char **argv) {
          (unsigned long long)(uintptr_t)sh, sizeof(struct vt_regs), nblock, nspin);
   for (int i = 0; i < nthreads_total; i++) {
     printf("%s{\"idx\":%d,\"tid\":%d,\"spin\":%d,\"regs_addr\":%llu,\"pipe_w\":%d,\"stack_lo\":%llu,\"stack_hi\":%llu,\"sig_addr\":%llu,\"name_hex\":\"",
-           i ? "," : "", i, sh->tids[i], is_slow[i] ? 2 : is_spin[i], (unsigned long long)(uintptr_t)&sh->regs[i], sh->pipes[i][1],
+           i ? "," : "", i, sh->tids[i], (is_slow[i] || is_mapper[i]) ? 2 : is_spin[i], (unsigned long long)(uintptr_t)&sh->regs[i], sh->pipes[i][1],
            (unsigned long long)stack_lo[i], (unsigned long long)stack_hi[i], (unsigned long long)(uintptr_t)&sh->sigcount[i]);
     for (int k = 0; k < name_len[i]; k++) printf("%02x", (unsigned char)names[i][k]);
     printf("\"}");
